@@ -132,4 +132,46 @@ theorem pitchCode_eq_pitchOf (rate : Nat) : pitchCode rate = LinkSpec.pitchOf ra
         · omega
         · split <;> omega
 
+/-! ### what a patch entry serves (used in the statements of the history theorems) -/
+
+/-- The 8-byte data-bank entry `e` is a PCM header that serves `bytes` at `rate`: its first word is
+a 24-bit address `p` with the pitch code of `rate` (the spec's `pitchOf`: units of 17500/8 Hz, rounded,
+within 1..8) in the top byte, its second word the number of
+bytes; the PCM bank `pcm` (what `get_pcm_data` returns) contains `[p, p + size)`, shows exactly
+`bytes` there, and the window does not cross a boundary of the `bankSize`-byte banks unless the
+sample is larger than a bank. -/
+def PcmHeaderServes (e pcm : Bytes) (bankSize rate : Nat) (bytes : Bytes) : Prop :=
+  ∃ p, e.length = 8 ∧ LinkSpec.nat32be e 0 = some (p + LinkSpec.pitchOf rate * 16777216) ∧ p < 16777216 ∧
+    LinkSpec.nat32be e 4 = some bytes.length ∧
+    p + bytes.length ≤ pcm.length ∧ LinkSpec.readAt pcm p bytes.length = bytes ∧ Alloc.bankRule bankSize ⟨p, bytes.length⟩
+
+/-- Patch-table entry `q = (slot address, value)` of a linked song serves what the song's file carried
+for that slot: the value is (the low 16 bits of) the index of a data-bank entry which is the carried
+data itself (`glob`; bit 15 = the flag of the id) or a PCM header serving the carried sample bytes at
+the carried rate in the linker's current PCM bank (`pcmh`). -/
+def Serves (l : Linker) (q : Nat × Nat) : Carried → Prop
+  | .data addr flag bytes => q.1 = addr ∧
+      ∃ idx, q.2 = (if flag then idx % 65536 ||| 0x8000 else idx % 65536) ∧ l.dataBank[idx]? = some bytes
+  | .pcm addr hdr bytes => q.1 = addr ∧ bytes.length = hdr.size ∧
+      ∃ idx e, q.2 = idx % 65536 ∧ l.dataBank[idx]? = some e ∧ PcmHeaderServes e (getPcmData l) l.wave.bankSize hdr.rate bytes
+
+theorem serves_of_resolves (l : Linker) (rs : List Alloc.Win) (inv : Wave.Inv l.wave rs) (h24 : l.wave.maxSize < 16777216)
+    (q : Nat × Nat) (c : Carried) (h : Resolves l.dataBank l.wave q c) : Serves l q c := by
+  cases c with
+  | data addr flag bytes => exact h
+  | pcm addr hdr bytes =>
+    obtain ⟨h1, idx, h2, e1, e2, e3, e4, e5, e6, e7⟩ := h
+    obtain ⟨w1, w2, w3, w4⟩ := window_facts l rs inv h2 e3 e4
+    have hcur := inv.curLe
+    have hrl := inv.romLen
+    have hlen : bytes.length = h2.size := by
+      rw [← e7]; simp only [Alloc.Win.reads, List.length_take, List.length_drop]; omega
+    obtain ⟨f1, f2, f3⟩ := pcmHeader_fields h2 (by rw [e4]; omega) (by omega)
+    refine ⟨h1, by rw [hlen, e5], idx, _, e1, e2, h2.position, f3, ?_, by omega, ?_, ?_, ?_, ?_⟩
+    · rw [f1, e4, e6, Nat.add_zero, pitchCode_eq_pitchOf]
+    · rw [f2, hlen]
+    · rw [hlen]; exact w2
+    · rw [hlen, w3, e7]
+    · rw [hlen]; exact w4
+
 end Ctrmml.Linker
